@@ -24,7 +24,7 @@ def okErr (b : Bool) : String := if b then "ok" else "err"
 def csv (s : String) : List String := if s == "-" then [] else s.splitOn ","
 
 def showKeys (p : List String × List String) : String :=
-  "top=" ++ ",".intercalate p.1 ++ ";content=" ++ ",".intercalate p.2
+  "ok:top=" ++ ",".intercalate p.1 ++ ";content=" ++ ",".intercalate p.2
 
 /-- ops:
     meta <ver>                                   getters
@@ -39,7 +39,7 @@ def showKeys (p : List String × List String) : String :=
 -/
 def handle (op : String) (args : Array String) : Option String :=
   match op, args.toList with
-  | "meta", [ver] => both ver (metaLine ver)
+  | "meta", [ver] => both ver (fun t => "ok:" ++ metaLine ver t)
   | "sigvalid", [ver, now, atTS, vu] =>
     match now.toNat?, atTS.toNat?, vu.toNat? with
     | some n, some a, some v => both ver (fun t => toString (sigValid t n a v))
@@ -70,7 +70,7 @@ def handle (op : String) (args : Array String) : Option String :=
       | some k => showKeys (survivors k ty topK conK)
       | none => "unspecified:version-not-in-the-specification-table"
     some (m ++ "\t" ++ s)
-  | "built", [ver] => both ver builtLine
+  | "built", [ver] => both ver (fun t => "ok:" ++ builtLine t)
   | _, _ => none
 
 end V.Driver.VertableOps
